@@ -90,7 +90,16 @@ try:
             shutil.copytree(src, os.path.join(dst, f), dirs_exist_ok=True)
         else:
             shutil.copy(src, dst)
+    prev = {}
+    if os.path.exists(os.path.join(dst, "meta.json")):  # keep the outcome of the FIRST confrontation (before any strengthening)
+        try:
+            old = json.load(open(os.path.join(dst, "meta.json")))
+            prev = old.get("first_verified") or old.get("verified") or {}
+        except ValueError:
+            prev = {}
     meta["verified"] = res
+    if prev:
+        meta["first_verified"] = prev
     json.dump(meta, open(os.path.join(dst, "meta.json"), "w"), indent=1)
     print(json.dumps({k: v for k, v in res.items() if k not in ("demo_tail_with_change",)}, indent=1))
 finally:
